@@ -700,3 +700,14 @@ mutant("C20-M24", "C20", "R20j", "flow total not annualised", PL, "PlotData.__in
 mutant("C13-M22", "C13", "R13h", "'eligible' returns the proportion covered", RS, "Result.get_coverage", "                output = num_eligible", "                output = prop_coverage")
 mutant("C13-M23", "C13", "R13h", "every program's number coverage divided by dt", RS, "Result.get_coverage", "                if self.model.progset.programs[prog].is_one_off:\n                    output[prog] /= self.dt", "                output[prog] /= self.dt")
 mutant("C13-M24", "C13", "R13h", "reported capacities computed without the instructions", RS, "Result.get_coverage", "capacities = self.model.progset.get_capacities(tvec=self.t, dt=self.dt, instructions=self.model.program_instructions)", "capacities = self.model.progset.get_capacities(tvec=self.t, dt=self.dt, instructions=None)")
+
+# ---- round 5, second batch
+mutant("C08-M21", "C08", "R08f", "execution order only recomputed when missing", M, "Model.process", "        self._set_exec_order()  # Set the execution order again", "        if self._exec_order is None:\n            self._set_exec_order()  # Set the execution order again")
+mutant("C10-M26", "C10", "R10f", "program cache built after the index-0 evaluation", M, "Model.process", "        self._update_program_cache()\n", "")
+mutant("C13-M25", "C13", "R13i", "program cache built only when programs start at the first year", M, "Model.process", "        self._update_program_cache()\n", "        if self.program_instructions is not None and self.program_instructions.start_year <= self.t[0]:\n            self._update_program_cache()\n")
+mutant("C09-M21", "C09", "R09e", "smooth remembers the method on the parameter", PA, "Parameter.smooth", '            elif method in ["pchip", "linear", "previous"]:\n                pass', '            elif method in ["pchip", "linear", "previous"]:\n                self._interpolation_method = method')
+mutant("C09-M22", "C09", "R09e", "scenario sets the parameter-wide interpolation method", "atomica/scenarios.py", "ParameterScenario.get_parset", "        return new_parset", "        for par in new_parset.all_pars():\n            par._interpolation_method = self.interpolation\n        return new_parset")
+mutant("C12-M30", "C12", "R12h", "combination outcome cache inherits the deltas' dtype", PR, "Covout.update_outcomes", "        self._combination_outcomes = np.array(_combination_outcomes)", "        self._combination_outcomes = np.array(_combination_outcomes, dtype=self._deltas.dtype)")
+mutant("C14-M34", "C14", "R14j", "adjustment years sorted while bounds stay positional", OP, "SpendingAdjustment.__init__", "self.t = sc.promotetoarray(t)", "self.t = np.sort(sc.promotetoarray(t))")
+mutant("C14-M35", "C14", "R14j", "upper and lower bounds swapped when building adjustables", OP, "SpendingAdjustment.__init__", "lower_bound=lb, upper_bound=ub", "lower_bound=ub, upper_bound=lb")
+twin("C14-T8", "C14", "years converted with np.asarray", OP, "SpendingAdjustment.__init__", "self.t = sc.promotetoarray(t)", "self.t = np.asarray(sc.promotetolist(t))")
